@@ -2426,7 +2426,9 @@ class BDD(dd._abc.BDD[_Ref]):
             else:
                 j = self.add_var(var)
             level_map[i] = j
-        umap = dict()
+        umap = {1: 1}
+            # the terminal node is not rebuilt,
+            # roots may refer to it
         for u in succ:
             # already added ?
             if u in umap:
